@@ -1,21 +1,30 @@
 #!/bin/bash
-# tools_mutants.sh <seeded-dir>... : applies each seeded change to /repo (git apply), runs the quick check (TIER=thorough
-# for the other tier; CHECK=Cnn to run another property's check) of its property, restores /repo (git checkout -- .) and
-# the committed evidence, and records the outcome in the directory's meta.json. Prints one line per change.
+# tools_mutants.sh <seeded-dir>... : runs the quick check (TIER=thorough for the other tier; CHECK=Cnn to run another
+# property's check) of each seeded change's property against a scratch worktree of /repo with the change applied
+# (/repo itself is never touched, so this can run next to other work), and records the outcome in the directory's
+# meta.json. The harness is a scratch copy of /verif/harness whose path dependencies point at the worktree.
+# Prints one line per change. Scratch: /tmp/mut_repo (worktree), /tmp/mut_work (harness copy), /tmp/mut_root (VERIF_ROOT);
+# remove with: git -C /repo worktree remove --force /tmp/mut_repo; rm -rf /tmp/mut_work /tmp/mut_root
+WT=/tmp/mut_repo${SLOT:-}; WK=/tmp/mut_work${SLOT:-}; RT=/tmp/mut_root${SLOT:-}
 cd /verif
+[ -d $WT ] || git -C /repo worktree add --detach $WT HEAD -q
+git -C $WT checkout -q --detach $(git -C /repo rev-parse HEAD)
+rsync -a --delete --exclude target /verif/harness/ $WK/
+sed -i "s#/repo/#$WT/#g" $WK/Cargo.toml
 for d in "$@"; do
   d=$(realpath ${d%/})
   id=${CHECK:-$(python3 -c "import json;print(json.load(open('$d/meta.json'))['property'])")}
-  if ! git -C /repo apply --check "$d/patch.diff" 2>/dev/null; then echo "$d: patch does not apply"; continue; fi
-  git -C /repo apply "$d/patch.diff"
+  git -C $WT checkout -q -- .
+  if ! git -C $WT apply "$d/patch.diff" 2>/dev/null; then echo "$d: patch does not apply"; continue; fi
+  mkdir -p $RT; rm -rf $RT/out $RT/evidence; cp /verif/known_findings.json $RT/; rsync -a --delete /verif/regress/ $RT/regress/
+  if ! (cd $WK && CARGO_NET_OFFLINE=true cargo build --release --offline -q 2>$RT/build.log); then echo "$d: harness build failed"; continue; fi
   t0=$(date +%s)
-  out=$(./check $id ${TIER:-quick} 2>&1); code=$?
+  out=$(cd $RT && VERIF_ROOT=$RT VERIF_TIER=${TIER:-quick} $WK/target/release/rbv $id ${TIER:-quick} 2>&1); code=$?
   t1=$(date +%s)
-  git -C /repo checkout -- .
+  git -C $WT checkout -q -- .
   sig=$(echo "$out" | grep -A1 "^VIOLATION" | grep "sig:" | head -1 | sed 's/^ *sig: //')
   nviol=$(echo "$out" | grep -c '^VIOLATION')
   echo "$d: $id exit=$code $((t1-t0))s $nviol violation line(s) $sig"
-  mkdir -p /tmp/mutlogs; echo "$out" | grep -v "^proptest" > /tmp/mutlogs/$(echo $d | tr '/' '_').log
   python3 - "$d" "$id" "${TIER:-quick}" "$code" "$sig" <<'PY'
 import json,sys
 d,cid,tier,code,sig=sys.argv[1:6]
@@ -32,5 +41,3 @@ elif m.get("caught_by","") in ("","?"):
 json.dump(m,open(p,"w"),indent=1)
 PY
 done
-git -C /verif checkout -- evidence
-rm -rf /verif/out/*
